@@ -198,56 +198,43 @@ def _guard_text(cfg, n, removed):
 
 
 def r3(repo, res):
+    """estimate_cn folded whole on depth tables: a locus whose summed normalised depth (gene and pseudogene) is below half the
+    smallest configuration ends in AldyException before the candidate filter or the model is touched; a pseudogene-only
+    sample passes the guard."""
+    from checks._cn import REGIONS, fold_estimate_cn, sample_gene
+
     f = repo.func("cn::estimate_cn")
     res.analysed(f)
-    c = cfg_of(f)
-    sinks = find_calls(f, "solve_cn_model") + find_calls(f, "_filter_configs")
-    res.floor("C19.R3", "model calls in estimate_cn", len(sinks), 2)
-    tot = names_assigned_from(f, lambda e: isinstance(e, ast.Call) and call_name(e) == "sum"
-                              and "region_cov" in ast.unparse(e))
-    mn = names_assigned_from(f, lambda e: isinstance(e, ast.Call) and call_name(e) == "min"
-                             and "cn_configs" in ast.unparse(e))
-    if not tot or not mn:
-        res.err("C19.R3", "total depth / smallest configuration definitions not found in estimate_cn")
-        return
-    pts = grid(t=[0.0, 0.4, 1.0, 1.99, 2.0, 5.0, 9.0], m=[4, 10])
-    for call in sinks:
-        gs = exiting_guards(c, c.node_of(call), kinds=("raise",))
-        tab = guard_table(gs, pts, lambda p: {tot[0]: p["t"], mn[0]: p["m"]})
-        bad = [p for p, fired in zip(pts, tab) if p["t"] < p["m"] / 2.0 and not fired]
-        res.ob("C19.R3", f, call, not bad,
-               expected="raise when the summed region depth is below half the smallest configuration, before the model is built",
-               found=("ok: " if not bad else f"no guard fires at {bad[0]}; ") + fmt_tests(gs),
-               key=call_name(call))
-    # the total must count gene *and* pseudogene depth (pseudogene-only sample is a whole-gene deletion, not an error)
-    d = [n for n in walk_local(f) if isinstance(n, ast.Assign) and isinstance(n.targets[0], ast.Name)
-         and n.targets[0].id == tot[0]][0]
+    prof = Obj(cn_solution=None, male=False)
+    n = 0
+    bad = None
     try:
-        v_gene = Evaluator({"region_cov": {"r": (3.0, 0.0)}}).ev(d.value)
-        v_pseudo = Evaluator({"region_cov": {"r": (0.0, 3.0)}}).ev(d.value)
-        ok = v_gene == 3.0 and v_pseudo == 3.0
-        found = f"gene-only -> {v_gene}, pseudogene-only -> {v_pseudo}"
-    except (Unfoldable, Raised) as e:
-        res.err("C19.R3", f"cannot fold the total-depth definition: {e}")
+        for parts in (2, 1):
+            gene = sample_gene(parts)
+            smallest = min(sum(sum(v.values()) for v in c.cn) for c in gene.cn_configs.values())
+            for g0, g1 in itertools.product([0.0, 0.1, 0.3, 0.5, 1.0, 2.0], repeat=2):
+                if parts == 1 and g1:
+                    continue
+                depth = {(gi, r): (g0 if gi == 0 else g1) for gi in range(parts) for r in REGIONS}
+                total = sum(depth[(gi, r)] for gi in range(parts) for r in REGIONS)
+                k, v, calls = fold_estimate_cn(repo, gene, prof, depth)
+                n += 1
+                low = total < smallest / 2.0
+                if abs(total - smallest / 2.0) < 1e-9:
+                    continue  # exactly at the threshold either outcome is within the statement
+                if low and not (k == "raise" and v == "AldyException" and not calls):
+                    bad = bad or f"{parts} gene part(s), gene depth {g0}, pseudogene depth {g1} (total {total} < {smallest}/2): {k} {v}; calls {[c[0] for c in calls]}"
+                if not low and not (k == "return" and [c[0] for c in calls] == ["_filter_configs", "solve_cn_model"]):
+                    bad = bad or f"{parts} gene part(s), gene depth {g0}, pseudogene depth {g1} (total {total} >= {smallest}/2): {k} {v}; calls {[c[0] for c in calls]}"
+    except Unfoldable as e:
+        res.err("C19.R3", f"estimate_cn outside the folding language: {e}")
         return
-    res.ob("C19.R3", f, d, ok, expected="total depth sums gene and pseudogene depth of every unique region",
-           found=found, clause="a sample whose reads cover only the pseudogene is still called (whole-gene deletion)",
-           key="total-counts-both")
-    # the other atom of the guard: the smallest configuration = min over configurations of its summed copy vector
-    dm = [n for n in walk_local(f) if isinstance(n, ast.Assign) and isinstance(n.targets[0], ast.Name)
-          and n.targets[0].id == mn[0]][0]
-    cfgs = {"1": Obj(cn=[{"a": 1, "b": 1}, {"a": 1, "b": 1}]), "5": Obj(cn=[{"a": 0, "b": 0}, {"a": 1, "b": 1}]),
-            "36": Obj(cn=[{"a": 1, "b": 0}, {"a": 1, "b": 2}])}
-    try:
-        v = Evaluator({"gene": Obj(cn_configs=cfgs)}).ev(dm.value)
-    except (Unfoldable, Raised) as e:
-        res.err("C19.R3", f"cannot fold the smallest-configuration definition: {e}")
-        return
-    res.ob("C19.R3", f, dm, v == 2,
-           expected="smallest configuration = min over configurations of the sum of its whole copy vector (2 on the sample table)",
-           found=f"{ast.unparse(dm.value)[:90]} -> {v}",
-           clause="no star-allele call from a locus without reads (the guard's threshold must be positive for a gene with a deletion allele)",
-           key="smallest-configuration")
+    res.count("C19.R3:depth tables folded", n)
+    res.ob("C19.R3", f, f, bad is None,
+           expected="error exactly when the summed depth of gene and pseudogene regions is below half the smallest configuration; otherwise filter, then model",
+           found=f"{n} depth tables agree" if bad is None else bad,
+           clause="no star-allele call for a locus no read covers, while a sample whose reads cover only the pseudogene is still called as a whole-gene deletion",
+           key="structure-stage-guard")
 
 
 def r4(repo, res):
